@@ -17,7 +17,8 @@ EXPLANATION = (
     "those column roles; _find_location is a pure function of the bounds test (every return derives from it, no "
     "instance state is read or written by a lookup) and returns an element of the match set or the empty match set. "
     "NOT decided: that mercantile's tiles are disjoint and cover the band, areas summing to the band, events exactly "
-    "on tile boundaries as float facts.")
+    "on tile boundaries as float facts. "
+    "Also decided (round 5): D4.double bounds keep their precision; D4.areafresh the area computation dominates every return of get_cell_area; G-DEFAULT on the tile builders.")
 CLAUSES = {'D1': 'half-open ownership', 'D2': 'four children / four roots, once each', 'D3': 'split predicate', 'D4': 'bounds roles and pure lookup'}
 TRUSTED = ['CPython ast', 'mercantile.bounds(tile) -> (west, south, east, north); children of quadkey q are q+0..q+3 and partition it']
 R = 'csep.core.regions.'
